@@ -63,7 +63,8 @@ class Effects:
             for q, f in self.M.funcs.items():
                 s = Analyzer(self, f).run()
                 old = self.summ[q]
-                if s.mut != old.mut or s.ret != old.ret or s.ret_attrs != old.ret_attrs or s.attr_mut != old.attr_mut:
+                if (s.mut != old.mut or s.ret != old.ret or s.ret_attrs != old.ret_attrs or s.attr_mut != old.attr_mut
+                        or bool(s.rng) != bool(old.rng)):
                     changed = True
                 self.summ[q] = s
             if not changed:
@@ -234,6 +235,8 @@ class Analyzer:
                 bound = None
             if sm is None or bound is None:
                 return self.opaque(arg_roots, kw_roots)
+            if sm.rng:
+                self.s.rng.append(c)
             for p in sm.mut:
                 node = bound.get(p)
                 if node is not None and not isinstance(node, (list, dict)):
